@@ -3,6 +3,9 @@
 import json, subprocess
 ALL = ["C%02d" % i for i in range(1, 21)]
 CLAIMED = {
+ "C13": dict(level="exploration", technique="grammar-based hostile-input fuzzing with a crash / hang / canary oracle: per-call watchdog and panic capture, child-process exit status with last-journaled input, canary traffic after every input",
+   text="Hostile documents are pushed through every fact/rule/search/query/event entry point of core.Location, sys.System and the HTTP service; each call must return within the watchdog without a panic, HTTP must answer, and the location must keep serving a fixed canary sequence; process-fatal failures are attributed through the journal.",
+   note="Totality is sampled, not enumerated; the strict canary runs after the accepted input has been removed again; the sheens stack-overflow recursion is an open known finding confined to its own child.", ref="§5 C13"),
  "C14": dict(level="exploration", technique="runtime monitor with canary-judged bounded progress: script families x timeout settings x positions executed on the real engine, outcome and return time observed at the API boundary",
    text="Each script family (value, throwing, invalid, non-terminating, slow-but-finishing) is run as RunJavascript, as a rule condition and as a rule action under a location-control timeout, the system default and with timeouts disabled; non-terminating scripts must come back as failures not before and boundedly after the limit, throwing/invalid ones as errors, finishing ones with their value and exactly their bindings.",
    note="A hang is a violation only when a canary timer armed in the same runtime fired on time and the call is still blocked 12 s later; scripts blocked inside host functions are out of reach.", ref="§5 C14"),
